@@ -151,7 +151,11 @@ Judge(e, mk(_), n, expired) ==
       \* C09: the datagram read in this tick answers a request that had already expired, and the node's state differs from the
       \* model's - in which expired replies only leave the in-flight table - in a core field
       lateEffect == ~r.ok /\ e.e = "tick" /\ e.input.dir = "resp" /\ e.input.tid \in SeqSet(e.expired) /\ TouchesCore(d)
-      f == L1(e) \cup (IF lateEffect THEN {"C09_ExpiredIgnored"} ELSE {})
+      \* C09: a reply or error that matches an outstanding request (transaction id and address) consumes it: the request is no
+      \* longer in the in-flight table afterwards, so a second copy cannot be attributed to it again
+      notConsumed == e.e = "tick" /\ e.input.dir = "resp" /\ e.input.tid \in SeqSet(e.proj.present)
+                     /\ \E i \in s.infl : i.tid = e.input.tid - base /\ i.to = e.input.peer
+      f == L1(e) \cup (IF lateEffect THEN {"C09_ExpiredIgnored"} ELSE {}) \cup (IF notConsumed THEN {"C09_ConsumedOnce"} ELSE {})
   IN /\ IF f # {} THEN PrintT(<<"VIOL", ToJson([line |-> l, b |-> beh, failed |-> f, step |-> e.e])>>) /\ mode' = "done"
         ELSE IF ~r.ok
              THEN PrintT(<<"DRIFT", ToJson([line |-> l, b |-> beh, step |-> e.e, fields |-> DiffNames(d)])>>) /\ mode' = "skip"
